@@ -105,18 +105,16 @@ StreamsManagerBase<MAX_STREAMS> {
     pub fn wake_stream(&self, stream_id: u32) {
         #[cfg(feature = "verif")] crate::verif::yield_point();
         let wakers = unsafe { &* self.wakers.get() };
+        // the waker must be used under the same lock `register_stream_waker()` & `report_stream_dropped()` replace / drop it under:
+        // otherwise it may be dropped -- by the consumer's thread -- while we are still using it here
+        ogre_sync::lock(&self.wakers_lock);
         match unsafe {wakers.get_unchecked(stream_id as usize)} {
             Some(waker) => waker.wake_by_ref(),
             None => {
-                // try again, syncing
                 #[cfg(feature = "verif")] crate::verif::probe("streams_manager.wake_stream.retried_under_lock");
-                ogre_sync::lock(&self.wakers_lock);
-                if let Some(waker) = unsafe {wakers.get_unchecked(stream_id as usize)} {
-                    waker.wake_by_ref();
-                }
-                ogre_sync::unlock(&self.wakers_lock);
             }
         }
+        ogre_sync::unlock(&self.wakers_lock);
     }
 
     /// Wakes all streams -- suitable for EOL procedures
